@@ -389,7 +389,16 @@ imag = wrap_elemwise(np.imag)
 fix = wrap_elemwise(np.fix)
 i0 = wrap_elemwise(np.i0)
 sinc = wrap_elemwise(np.sinc)
-nan_to_num = wrap_elemwise(np.nan_to_num)
+
+
+def _nan_to_num(x, copy=True, **kwargs):
+    # A block is shared with every other task that reads it and is never owned
+    # by this one, so ``copy=False`` must not reach numpy.
+    return np.nan_to_num(x, copy=True, **kwargs)
+
+
+_nan_to_num.__name__ = "nan_to_num"
+nan_to_num = wrap_elemwise(_nan_to_num)
 
 
 @derived_from(np)
